@@ -26,7 +26,7 @@ func init() {
 		Rule:  "(1) lock-table walk: on a real node with a database in rollback or WAL mode, 2-3 simulated processes issue seeded sequences of the lock requests SQLite's protocols are made of (PENDING/SHARED/RESERVED read, write, upgrade, downgrade, 2-byte and whole-file unlocks; DMS, WRITE, CKPT, RECOVER, CKPT+RECOVER, READ0-4 singly and as a range; close), interleaved in every order the seed produces with LiteFS's own write-lock attempts and releases (TryAcquireWriteLock), timed AcquireWriteLock users (checkpoint, recover, import) and out-of-protocol WAL writes. Every request's result is compared with an independent POSIX byte-range-lock specification of the client side (all-or-nothing per request, EAGAIN on conflict, plus the property's own rule that an exclusive CKPT is refused while another owner holds WRITE); LiteFS's write lock may only succeed when no client holds a read or write transaction lock, a failed attempt must leave the lock states unchanged, and while it is held no client can obtain SHARED/RESERVED (rollback) or a READ mark, WRITE, CKPT or RECOVER (WAL). Every database page write or truncation LiteFS performs outside a client's own system call is checked against the client lock table. (2) the multi-node fault simulation with the same internal-write monitor on every node, fed by the simulated kernel's own record of granted locks. evaluations = lock requests + internal write sections checked; distinct = distinct (mode, abstract lock-table state, request, result) tuples; non-trivial = run with >= 1 refused request and >= 1 internal write section",
 		Run:   runC11,
 		NonTrivial: func(r *Run) bool {
-			return r.Stats["c11.refused"] > 0 || r.Stats["c11.internal-write.checked"] > 0 || r.Stats["c11.flip.checked"] > 0 || (r.Stats["c11.halt.probe"] > 0 && r.Stats["c11.halt.local-busy"] > 0) || r.Stats["c11.hot-journal.left"] > 0
+			return r.Stats["c11.refused"] > 0 || r.Stats["c11.internal-write.checked"] > 0 || r.Stats["c11.flip.checked"] > 0 || (r.Stats["c11.halt.probe"] > 0 && r.Stats["c11.halt.local-busy"] > 0) || r.Stats["c11.hot-journal.left"] > 0 || (r.Stats["c11.mode-change.left-wal"] > 0 && r.Stats["c11.mode-change.granted"] > 0)
 		},
 		Assumptions: []string{"the client side of the specification is POSIX fcntl semantics per lock byte as SQLite uses them; what LiteFS's internal owner holds is not assumed but constrained by the property's statements only"},
 		Real:        []string{"fuse DatabaseHandle/SHMHandle Lock/Unlock/Flush, litefs lock(), DB.TryLock/TryRLock/Unlock/CanLock, TryAcquireWriteLock/AcquireWriteLock, Checkpoint, Recover, Import, replica apply (scenario 2)"},
@@ -35,7 +35,7 @@ func init() {
 }
 
 func runC11(r *Run) {
-	pick := r.Tape.Pick([]int{13, 6, 1, 5, 3})
+	pick := r.Tape.Pick([]int{13, 6, 1, 5, 3, 3})
 	if v := os.Getenv("SIM_C11_SCENARIO"); v != "" { // developer override
 		pick, _ = strconv.Atoi(v)
 	}
@@ -52,9 +52,12 @@ func runC11(r *Run) {
 	case 3:
 		r.Cfg["scenario"] = "halt-race"
 		c11HaltRace(r)
-	default:
+	case 4:
 		r.Cfg["scenario"] = "hot-journal-race"
 		c11HotJournalRace(r)
+	default:
+		r.Cfg["scenario"] = "mode-change-race"
+		c11ModeChangeRace(r)
 	}
 }
 
